@@ -762,4 +762,9 @@ mod tests {
 
         events
     }
+
+    #[cfg(lumina_verif)]
+    mod verif_native {
+        include!(concat!(env!("LUMINA_VERIF_DIR"), "/native/node/pooltrk.rs"));
+    }
 }
